@@ -91,9 +91,12 @@ func (c *Context) AbortWithStatus(code int, msg ...string) {
 
 // Next processing, run all handlers
 func (c *Context) Next() {
-	c.index++
+	// NOTICE: only move the index when a handler is started. It must not grow while the
+	// chain is unwinding or on extra Next() calls, else it reaches abortIndex (IsAborted()
+	// reports true without an abort) and finally overflows int8.
 	s := int8(len(c.handlers))
-	for ; c.index < s; c.index++ {
+	for c.index+1 < s {
+		c.index++
 		c.handlers[c.index](c)
 	}
 }
